@@ -13,6 +13,7 @@ Import ListNotations.
 Open Scope Z_scope.
 
 Section CollDup.
+  Set Default Proof Using "Type".
   Variable matchf : doc -> doc -> res bool.
   Variable applyf : doc -> doc -> doc -> bool -> list doc -> Z -> res (doc * list (string * value)).
   Variable extractf : doc -> res doc.
@@ -66,7 +67,8 @@ Section CollDup.
     filters_defined ixs d -> would_dup ixs P d -> first_reject ixs P d.
   Proof.
     intros C [ni [Hin H]]. apply in_split in Hin. destruct Hin as [pre [post ->]].
-    exists pre, ni, post. split; auto. split; auto. apply Forall_app in C. tauto.
+    exists pre, ni, post. split; auto. split; auto. apply Forall_app in C.
+    destruct C as [C _]. exact C.
   Qed.
 
   Lemma coll_inv_ok c : coll_inv c -> Forall (fun ni => ix_ok (docs_of c) (snd ni)) (c_indexes c).
